@@ -2,8 +2,10 @@
 
 pub mod build;
 pub mod common;
+pub mod misc;
 pub mod parse;
 pub mod parse2;
+pub mod sdes;
 pub mod roundtrip;
 pub mod sizes;
 
@@ -13,6 +15,7 @@ pub fn check_for(id: &str, tier: Tier) -> Option<Check> {
     match id {
         "C01" => Some(parse2::c01(tier)),
         "C09" => Some(parse2::c09(tier)),
+        "C10" => Some(sdes::c10(tier)),
         "C11" => Some(parse2::c11(tier)),
         "C12" => Some(parse2::c12(tier)),
         "C02" => Some(roundtrip::c02(tier)),
@@ -23,6 +26,8 @@ pub fn check_for(id: &str, tier: Tier) -> Option<Check> {
         "C07" => Some(build::c07(tier)),
         "C08" => Some(parse::c08(tier)),
         "C18" => Some(parse::c18(tier)),
+        "C13" => Some(misc::c13(tier)),
+        "C15" => Some(misc::c15(tier)),
         "C14" => Some(sizes::c14(tier)),
         "C16" => Some(sizes::c16(tier)),
         "C17" => Some(sizes::c17(tier)),
